@@ -136,7 +136,11 @@ def apply_contract(ip, con, f, args, kwargs):
     ip.bind_params(node.args, args, kwargs, env, f.__name__)
     qn = con.qualname
     if con.requires is not None:
-        ip.path.oblige(f"call {qn}#requires", clause_bool(ip, con.requires, env, f"{qn}#requires"), kind="requires")
+        req = z3.simplify(clause_bool(ip, con.requires, env, f"{qn}#requires"))
+        if z3.is_false(req):
+            # the contract does not cover this call (its precondition is plainly false here): use the body instead
+            return ip.call_function(f, args, kwargs, force_inline=True)
+        ip.path.oblige(f"call {qn}#requires", req, kind="requires")
     # modifies: the listed objects / attributes must be writable in the caller's frame; listed attributes are havoc'd
     for m in (con.modifies if modifies_applies(ip, con, node, env) else ()):
         pname = m.split(".", 1)[0]
